@@ -297,7 +297,8 @@ class Body:
                     dt = self.operand_term(t["d"])
                     # the call whose result is tested (through discriminant / field / cast wrappers only)
                     x = dt
-                    while isinstance(x, tuple) and x and x[0] in ("discr", "field", "variant", "cast", "un", "ref", "deref") and len(x) > 1:
+                    # (not through `as Some.0`: a test on the ELEMENT the iterator yielded is not the exhaustion test)
+                    while isinstance(x, tuple) and x and x[0] in ("discr", "cast", "un", "ref", "deref") and len(x) > 1:
                         x = x[2] if x[0] in ("cast", "un") else x[1]
                     names = [x[1].rsplit("::", 1)[-1]] if isinstance(x, tuple) and x and x[0] == "call" else []
                     if "poll" in names or "poll_next" in names:
